@@ -1,4 +1,4 @@
-import Resynth.Model.Cli
+import Resynth.Model.Batch
 import Resynth.Gen.Stdlib
 import Resynth.Model.Docs
 import Resynth.Spec.Pcap
@@ -261,6 +261,31 @@ def cmdProg (args : List String) : String :=
       s!"{fmtOutcome r.outcome} file={hexOrDash r.file} warnings={",".intercalate (r.warnings.map fmtLoc)} times={",".intercalate (r.emitted.map fun e => toString e.1)}"
   | _ => "bad-request"
 
+/-- `batch <keep 0|1> (<stemhex|->:<srchex|MISSING>:<outok 0|1>:<budget|->)*` : the command-line loop over several inputs -/
+def cmdBatch (args : List String) : String :=
+  match args with
+  | keep :: ins =>
+    let inputs : Option (List Input) := ins.mapM fun a =>
+      match a.splitOn ":" with
+      | [st, src, ok, bud] => do
+        let stem ← if st == "-" then some none else (decodeHexStr st).map some
+        let unreadable := src == "UNREADABLE"
+        let src ← if src == "MISSING" then some none else if unreadable then some (some []) else (ofHex src).map some
+        some { stem := stem, src := src, unreadable := unreadable, outOk := ok == "1", budget := bud.toNat? }
+      | _ => none
+    match inputs with
+    | none => "bad-request"
+    | some inputs =>
+      let r := runBatch ⟨Gen.lib, []⟩ (keep == "1") [] inputs
+      let rep := r.reports.map fun
+        | .ok => "ok"
+        | .error cls _ loc => s!"error:{cls}:{loc.line}:{loc.col}"
+        | .notAFileName => "notafilename"
+        | .panic s => s!"panic:{s}"
+      let dir := (r.dir.map fun (k, v) => s!"{hexOrDash k.toUTF8.toList}={hexOrDash v}")
+      s!"exit={r.exit} reports={",".intercalate rep} dir={";".intercalate dir}"
+  | _ => "bad-request"
+
 def hx (b : Bytes) : String := hexOrDash b
 def hxs (bs : List Bytes) : String := ",".intercalate (bs.map hx)
 
@@ -505,6 +530,7 @@ def dispatch (line : String) : String :=
     | "call" => cmdCall args
     | "lit" => cmdLit args
     | "prog" => cmdProg args
+    | "batch" => cmdBatch args
     | "oracle" => cmdOracle args
     | "docs" => " ".intercalate ((Docs.allPages Gen.lib Gen.docs).map fun (n, t) => s!"{n}={hexOrDash t.toUTF8.toList}")
     | _ => "bad-request"
